@@ -33,7 +33,10 @@ MANIFEST_META = dict(
         dict(name="fuzz", path="/verif/harness", kind_free_text="libFuzzer targets (clang++ -fsanitize=fuzzer,address,undefined) with oracles inside the target"),
         dict(name="hyp", path="/verif/py", kind_free_text="Hypothesis scenarios executed by child runner executables built from /repo"),
     ],
-    notes="Every check is generated-input search against an explicit oracle (DESIGN.md). ./check <ID> <tier> rebuilds from /repo's working tree (content-hashed cache in /verif/build).",
+    notes="Every check is generated-input search against an explicit oracle (DESIGN.md). ./check <ID> <tier> rebuilds from /repo's working tree (content-hashed cache in /verif/build). "
+    "Known findings and repaired defects: /verif/known_findings.json (never written at run time); minimal failing cases replayed on every run: /verif/regressions/<ID>/. "
+    "Sensitivity material: /verif/seeded/<id>/ (changes written by independent sub-agents, each with patch.diff, demonstration, meta.json), /verif/tools/mutants/ (hand-made mutants), "
+    "tools/seed_matrix.sh, tools/run_mutants.py. tools/run_all.sh <tier> runs all checks on /repo and validates the evidence files. VERIF_SEED selects the generator seed (default 1).",
 )
 
 PROPS["C17"].update(
